@@ -165,6 +165,9 @@ func OpTables() []*OpTable {
 						if eu == 1 && order != 1 {
 							t.Spelling = 1 + order/2
 						}
+						if eu == 0 && order != 1 {
+							t.Spelling = 3 + order/2
+						}
 						next := 0
 						for l := 0; l < k; l++ {
 							n := 1
